@@ -55,6 +55,7 @@ def pairing(chk):
     chk.require("C13.R1", f"{mi.rel}:{ci.node.lineno}", is_mode, "Calibration derives from TorchFunctionMode", "Calibration", "mode base class", "any calibration")
     handles = {}
     stacks = {}
+    tuples = set()
     n_reg = 0
     for p in paths_of(enter):
         sup = any(ef[0] == "expr" and U(ef[1]) == "super().__enter__()" for ef in p.effects) or (p.end[1] is not None and "super().__enter__()" in U(p.end[1]))
@@ -64,6 +65,12 @@ def pairing(chk):
                 n_reg += 1
                 chk.require("C13.R1", f"{mi.rel}:{ef[4]}", U(ef[1]) == "self", f"handle of {U(ef[3].func)} stored in self.{ef[2]}", "Calibration.__enter__", "handle stored", "any calibration: the hook can never be removed")
                 handles[ef[2]] = U(ef[3].func)
+            elif ef[0] == "store" and isinstance(ef[3], (ast.Tuple, ast.List)) and U(ef[1]) == "self" and any(isinstance(x, ast.Call) and U(x.func) in HOOK_REGISTRARS for x in ef[3].elts):
+                # the handles of one entry kept as a tuple in a plain attribute
+                for i_, x in enumerate(y for y in ef[3].elts if isinstance(y, ast.Call) and U(y.func) in HOOK_REGISTRARS):
+                    n_reg += 1
+                    handles[ef[2] if i_ == 0 else f"{ef[2]}#{i_ + 1}"] = U(x.func)
+                    tuples.add(ef[2])
             elif ef[0] == "expr" and isinstance(ef[1], ast.Call) and U(ef[1].func) in HOOK_REGISTRARS:
                 n_reg += 1
                 chk.bad("C13.R1", f"{mi.rel}:{ef[2]}", "Calibration.__enter__", f"handle of {U(ef[1].func)} dropped", f"the handle returned by {U(ef[1].func)} is not kept", "any calibration: the global hook stays registered for the rest of the process")
@@ -111,11 +118,35 @@ def pairing(chk):
                     for i_ in range(k_):
                         handles.setdefault(cont if i_ == 0 and cont not in handles else cont + f"#{len([h for h in handles if h.startswith(cont)]) + 1}", "container")
     chk.floor("C13.R1", len(handles), 2, "global hook handles stored on entry")
+    # conditional registration: when __enter__ registers the hooks only in some state of the object (`if self.handles is None:`), the state must be
+    # re-armed when the hooks are removed - otherwise an object that was left once registers nothing the next time it is entered
+    def _registers(p_):
+        return any(any(isinstance(x, ast.Call) and U(x.func) in HOOK_REGISTRARS for x in ast.walk(ef[3] if ef[0] == "store" else ef[1])) for ef in p_.effects if ef[0] in ("store", "expr") and isinstance(ef[3] if ef[0] == "store" else ef[1], ast.AST))
+    epaths = [p_ for p_ in paths_of(enter) if p_.end[0] in ("fall", "return")]
+    reg_paths = [p_ for p_ in epaths if _registers(p_)]
+    conditional = bool(reg_paths) and len(reg_paths) < len(epaths)
+    state_guarded_exit = False
+    if conditional:
+        guard_attrs = sorted({n_.attr for p_ in epaths for c, t, _ in p_.conds for n_ in ast.walk(c) if isinstance(n_, ast.Attribute) and U(n_.value) == "self"})
+        written_on_entry = {ef[2] for p_ in reg_paths for ef in p_.effects if ef[0] in ("store", "augstore") and U(ef[1]) == "self"} | \
+                           {ef[1].func.value.attr for p_ in reg_paths for ef in p_.effects if ef[0] == "expr" and isinstance(ef[1], ast.Call) and isinstance(ef[1].func, ast.Attribute) and isinstance(ef[1].func.value, ast.Attribute) and U(ef[1].func.value.value) == "self"}
+        written_on_exit = {n_.attr for n_ in ast.walk(exit_) if isinstance(n_, ast.Attribute) and U(n_.value) == "self" and isinstance(n_.ctx, (ast.Store, ast.Del))} | \
+                          {n_.func.value.attr for n_ in ast.walk(exit_) if isinstance(n_, ast.Call) and isinstance(n_.func, ast.Attribute) and n_.func.attr in ("pop", "clear", "remove", "append", "discard", "popitem") and isinstance(n_.func.value, ast.Attribute) and U(n_.func.value.value) == "self"}
+        stuck = [a for a in guard_attrs if a in written_on_entry and a not in written_on_exit]
+        if stuck:
+            chk.bad("C13.R1", f"{mi.rel}:{enter.lineno}", "Calibration.__enter__", "registration state never re-armed", f"NOT: __enter__ registers the hooks only when its guard on self.{stuck} holds, the registering path changes {stuck} and __exit__ never writes it: "
+                    "once the object has been left, entering it again registers nothing", "c = Calibration(); with c: model(a)  then  with c: model(b) - the second context runs without hooks: the scales stay those of the first context "
+                    "(and the momentum average of C12 stops), while a fresh object per context works")
+        else:
+            chk.unknown("C13.R1", f"{mi.rel}:{enter.lineno}", f"__enter__ registers the hooks under a condition on the object's state ({guard_attrs}) that __exit__ rewrites: the enter/exit protocol is a state machine this rule does not decide")
+        state_guarded_exit = True
     # re-entrancy: torch lets the same mode object be entered again while it is active; handles kept in plain attributes are then
     # overwritten and the first pair of hooks can never be removed
     plain = sorted(h for h, v in handles.items() if v not in ("container", "shared container"))
     refuses = any(p.end[0] == "raise" and any("self." in U(c) for c, t, _ in p.conds) for p in paths_of(enter))
-    if plain and not stacks:
+    if plain and not stacks and conditional:
+        pass  # decided (or declared undecided) by the conditional-registration clause above
+    elif plain and not stacks:
         if refuses:
             chk.unknown("C13.R1", f"{mi.rel}:{enter.lineno}", "__enter__ has a raising path conditioned on instance state: whether it refuses re-entry is not decided")
         else:
@@ -141,6 +172,10 @@ def pairing(chk):
                 if isinstance(f, ast.Attribute) and f.attr == "remove" and isinstance(f.value, ast.Attribute) and U(f.value.value) == "self":
                     if ef[3] == 0:
                         removed.add(f.value.attr)
+                if isinstance(f, ast.Attribute) and f.attr == "remove":
+                    for tp in tuples:
+                        if U(f.value) == f"__elem__(self.{tp})" and ef[3] >= 1:
+                            removed.update(h for h in handles if h == tp or h.startswith(tp + "#"))
                 # `for h in self.c.pop(): h.remove()` releases the whole entry pushed last; `self.c.pop().remove()` a single-handle entry
                 if isinstance(f, ast.Attribute) and f.attr == "remove":
                     rt = U(f.value)
@@ -174,6 +209,9 @@ def pairing(chk):
         else:
             chk.ok("C13.R1", site, "no operation that can raise precedes the release of the handles (or the releases are in a finally block)")
         missing = sorted(set(handles) - removed)
+        if missing and state_guarded_exit and any("self." in U(c) for c, t, _ in p.conds):
+            chk.unknown("C13.R1", site, f"__exit__ path ({' & '.join(p.cond_texts())}) keeps the handles {missing} in a state of the object: part of an enter/exit state machine this rule does not decide")
+            missing = []
         chk.require("C13.R1", site, not missing, f"__exit__ path ({' & '.join(p.cond_texts()) or 'unconditional'}) removes every stored handle {sorted(handles)}; missing={missing}", "Calibration.__exit__",
                     f"handle not removed: {','.join(missing)}", "leaving the context" + (" through an exception" if cond_on_exc else "") + ": a global hook stays registered and later forwards keep updating scales")
         chk.require("C13.R1", site, bool(sup_exit), "__exit__ pops the mode with super().__exit__(exc_type, exc_val, exc_tb)", "Calibration.__exit__", "super().__exit__", "leaving the context: the torch-function mode stays on the stack")
@@ -216,6 +254,64 @@ def buffer_aliasing(chk):
         chk.require("C13.R6", f"{c.mod.rel}:{nd.lineno}", not writers, f"{c.name}.{fn.name} hands the buffer `{a}` itself to the tensor it returns ({n} such sites); handlers writing a scale in place: {writers}", f"{c.name}.{fn.name}", "module output aliases a scale buffer",
                     "a model whose forward writes into a module output (h[0] = g[0], or h.copy_(g)) between two quantized modules: outside any Calibration context the first module's output_scale changes (0.0108 -> 0.0514) and its next output is not bit-identical")
     chk.floor("C13.R6", n, 1, "scale buffers handed to quantize_activation")
+
+
+INPLACE_METHODS = ("copy_", "fill_", "zero_", "mul_", "div_", "add_", "sub_", "set_", "clamp_", "lerp_", "addcmul_", "masked_fill_", "resize_")
+
+
+def buffer_inplace_writers(repo, names=("input_scale", "output_scale")):
+    """Package functions that write a registered activation-scale buffer IN PLACE: `m.<buf>.copy_(v)` (any in-place method), `m.<buf>[...] = v`,
+    `m.<buf>.data = v`, or a call of a setter procedure (a helper that writes its parameter in place) with the buffer as argument.
+    Returns (module info, function, node, text)."""
+    from ..core import _is_setter_procedure
+    out = []
+    for mi in repo.modules.values():
+        if not mi.rel.startswith("optimum/"):
+            continue
+        for fn in [x for x in ast.walk(mi.tree) if isinstance(x, ast.FunctionDef)]:
+            for nd in ast.walk(fn):
+                isbuf = lambda e: isinstance(e, ast.Attribute) and e.attr in names
+                if isinstance(nd, ast.Call) and isinstance(nd.func, ast.Attribute) and nd.func.attr in INPLACE_METHODS and isbuf(nd.func.value):
+                    out.append((mi, fn, nd, U(nd)[:70]))
+                elif isinstance(nd, ast.Call) and isinstance(nd.func, ast.Name) and any(isbuf(a) for a in nd.args):
+                    r = repo.resolve(mi, nd.func.id)
+                    if r is not None and isinstance(r[1], ast.FunctionDef) and _is_setter_procedure(r[1]):
+                        written = {c.func.value.id for c in ast.walk(r[1]) if isinstance(c, ast.Call) and isinstance(c.func, ast.Attribute) and c.func.attr in INPLACE_METHODS and isinstance(c.func.value, ast.Name)}
+                        params = [a.arg for a in r[1].args.args]
+                        if any(isbuf(a) and i < len(params) and params[i] in written for i, a in enumerate(nd.args)):
+                            out.append((mi, fn, nd, U(nd)[:70]))
+                elif isinstance(nd, (ast.Assign, ast.AugAssign)):
+                    for t in (nd.targets if isinstance(nd, ast.Assign) else [nd.target]):
+                        if isinstance(t, ast.Subscript) and isbuf(t.value) or isinstance(t, ast.Attribute) and t.attr == "data" and isbuf(t.value) \
+                                or isinstance(nd, ast.AugAssign) and isbuf(t):
+                            out.append((mi, fn, nd, U(nd)[:70]))
+    return out
+
+
+def saved_scale_mutation(chk, rule="C11.R10"):
+    """The quantized activation a module computes with holds the module's scale buffer itself (the aliasing recorded under C13.R6), and the linear
+    function saves that activation for its backward: a later in-place write of the buffer rewrites what an earlier forward saved.  While the aliasing
+    exists, the buffers are only ever REPLACED."""
+    repo = chk.repo
+    mixin = repo.cls("QModuleMixin")
+    aliased = []
+    for c in [mixin] + repo.subclasses(mixin):
+        for mname in ("forward", "qforward"):
+            fn = c.own(mname)
+            if fn is None:
+                continue
+            for nd in ast.walk(fn):
+                if isinstance(nd, ast.Call) and U(nd.func) in ("quantize_activation", "maybe_requantize"):
+                    for a in list(nd.args) + [k.value for k in nd.keywords]:
+                        if U(a) in ("self.input_scale", "self.output_scale"):
+                            aliased.append(f"{c.name}.{fn.name}: {U(a)}")
+    writers = buffer_inplace_writers(repo)
+    for mi, fn, nd, txt in writers:
+        chk.require(rule, f"{mi.rel}:{nd.lineno}", not aliased, f"{fn.name}: `{txt}` writes a scale buffer in place while {len(aliased)} forward site(s) hand the buffer itself to the activation they quantize ({aliased[:2]})",
+                    fn.name, "scale buffer written in place", "two forwards of one module under an active Calibration (gradients enabled) before one backward, batches of different magnitudes: the second forward rescales the input the first one "
+                    "saved, and the weight gradient is off (35.8 for gradients of magnitude 106) - autograd's version counter does not see the inner scale")
+    chk.ok(rule, f"{mixin.mod.rel}:{mixin.node.lineno}", f"{len(writers)} in-place writer(s) of input_scale / output_scale in the package; {len(aliased)} forward site(s) alias a buffer")
+    return len(aliased)
 
 
 def who_may_call(chk):
